@@ -31,7 +31,7 @@ type Consumer struct {
 type Scenario struct {
 	Name      string              `json:"name"`
 	TK        string              `json:"tk"`   // pid | name | alias | event
-	Term      string              `json:"term"` // kill | unregname
+	Term      string              `json:"term"` // kill | unregname | unregevent
 	Consumers map[string]Consumer `json:"consumers"`
 	TDel      string              `json:"tdel"`
 	TDrain    string              `json:"tdrain"`
@@ -193,7 +193,12 @@ func (r *Runner) RunPlan(scn *Scenario, plan *replay.Plan) error {
 		}
 		target = a
 	case "event":
-		if err := gated.Do(r.Node, tpid, func(s *gated.Scripted) error {
+		if scn.Term == "unregevent" {
+			// registered in the name of the node, so that the terminator thread can unregister it directly
+			if _, err := r.Node.RegisterEvent(evname, gen.EventOptions{}); err != nil {
+				return fmt.Errorf("event: %w", err)
+			}
+		} else if err := gated.Do(r.Node, tpid, func(s *gated.Scripted) error {
 			_, e := s.RegisterEvent(evname, gen.EventOptions{})
 			return e
 		}); err != nil {
@@ -299,13 +304,15 @@ func (r *Runner) RunPlan(scn *Scenario, plan *replay.Plan) error {
 		var err error
 		if scn.Term == "unregname" {
 			_, err = r.Node.UnregisterName(tname)
+		} else if scn.Term == "unregevent" {
+			err = r.Node.UnregisterEvent(evname)
 		} else {
 			err = r.Node.Kill(tpid)
 		}
 		r.Ctl.SetInfo("tres", resName(err))
 	})
 	expReason := "kill"
-	if scn.Term == "unregname" {
+	if scn.Term == "unregname" || scn.Term == "unregevent" {
 		expReason = "unregistered"
 	}
 	project := func() map[string]any {
